@@ -138,7 +138,7 @@ func run(c *hl.Ctx) error {
 		}
 	}
 	nProg := lay.DevN(c.Pick(320, 6000))
-	weights := []string{"core", "styled", "styled", "grid", "seq", "near", "nested", "names", "names", "boards"}
+	weights := []string{"core", "styled", "deep", "grid", "seq", "near", "nested", "names", "names", "boards"}
 	for i := 0; i < nProg; i++ {
 		p := weights[i%len(weights)]
 		src := g.Program(p)
